@@ -38,6 +38,7 @@ type Session struct {
 	Target string `json:"target"` // engine | pool
 	Gated  bool   `json:"gated"`
 	Burst  bool   `json:"burst"`
+	Hooks  bool   `json:"hooks"` // record the result-map lock status at every result write
 	Rules  []Rule `json:"rules"`
 	Calls  []Call `json:"calls"`
 }
@@ -185,6 +186,8 @@ type runCtx struct {
 
 var cur *runCtx // replaced between calls, never during one
 
+var installHooks = func(on bool) {} // replaced in hook_verif.go (build tag verif)
+
 var poolCache = map[string]*engine.GenginePool{}
 var kcCache = map[string]*builder.RuleBuilder{}
 
@@ -272,6 +275,7 @@ func nzd(d [][]string) [][]string {
 func runSession(s *Session, quiet time.Duration, seed int64, callTimeout time.Duration) ([]obs.Event, bool) {
 	var all []obs.Event
 	all = append(all, obs.Event{"ev": "session", "id": s.ID})
+	installHooks(s.Hooks)
 	text := ruleText(s.Rules)
 	api := apis()
 	for k, v := range faultData() {
